@@ -240,3 +240,50 @@ extern "C" void harness_type_subst()  /* vf: bounds=10_declared_types_with_expre
     vf_assert(id.str() == text, "self-substitution-is-identity");
     vf_reach("end");
 }
+
+// the other deep clones: with one symbol replaced by another (from, to), and re-resolved by name in a template frame plus an edge's select frame
+extern "C" void harness_clone_variants()  /* vf: bounds=labels_of_3_edges(with_1_or_2_select_binders_at_depth_1..3,template_locals,parameters,globals)_x_clone_into_(template_frame,select_frame)_and_clone_with_each_of_6_symbols_replaced reach=end */
+{
+    Model m;
+    bool ok = m.load("int g; int arr[4]; const int N = 4;\n"
+                     "process P(const int id) {\n int loc; clock x;\n state A, B; init A;\n"
+                     " trans A -> B { select i : int[0,3]; guard i == 2 && arr[i] >= loc + id; assign loc = arr[(i + 1) % N] + g, x = 0; },\n"
+                     "  B -> A { select i : int[0,3], j : int[0,1]; guard arr[i] > j || (loc < id && j == 0); assign arr[j] = i; },\n"
+                     "  A -> A { guard loc > g; assign loc = id; };\n}\nP1 = P(1);\nsystem P1;\n");
+    vf_assert(ok, "model-accepted");
+    template_t& t = m.doc.get_templates().front();
+    int ei = vf_pick("!edge", 3), li = vf_pick("!label", 2), mode = vf_pick("!mode", 2);
+    edge_t& ed = t.edges[ei];
+    expression_t e = li ? ed.assign : ed.guard;
+    std::string text = e.str();
+    vf_note(text.c_str());
+    std::vector<expression_t> ne; walk(e, ne);
+    if (mode == 0) {
+        expression_t c = e.clone_deeper(t.frame, ed.select);
+        std::vector<expression_t> nc; walk(c, nc);
+        vf_assert(nc.size() == ne.size(), "clone-into-frames-same-node-count");
+        bool syms = true, shared = false;
+        for (size_t k = 0; k < ne.size() && k < nc.size(); k++) { if (ne[k].get_kind() == IDENTIFIER && !(nc[k].get_kind() == IDENTIFIER && nc[k].get_symbol() == ne[k].get_symbol())) syms = false; if (ne[k].data.get() == nc[k].data.get()) shared = true; }
+        vf_assert(syms, "clone-into-frames-resolves-every-identifier-to-the-same-symbol");
+        vf_assert(c.equal(e) && e.equal(c) && c.str() == text, "clone-into-frames-equal");
+        vf_assert(!shared, "clone-into-frames-shares-no-node");
+    } else {
+        static const char* FROM[] = {"g", "arr", "loc", "id", "i", "j"};
+        int si = vf_pick("!symbol", 6);
+        symbol_t from, to;
+        bool f = (ed.select != frame_t() && ed.select.resolve(FROM[si], from)) || t.frame.resolve(FROM[si], from);
+        bool g = t.frame.resolve("x", to);
+        vf_assert(g, "replacement-symbol-declared");
+        if (!f) { vf_reach("end"); return; }   // the symbol is not visible from this edge
+        int occ = count_ident(e, from);
+        expression_t c = e.clone_deeper(from, to);
+        std::vector<expression_t> nc; walk(c, nc);
+        vf_assert(nc.size() == ne.size(), "clone-with-replacement-same-node-count");
+        vf_assert(count_ident(c, from) == 0 && count_ident(c, to) == occ + count_ident(e, to), "exactly-the-occurrences-of-the-symbol-replaced");
+        vf_assert(e.str() == text && count_ident(e, from) == occ, "original-unchanged");
+        vf_assert((occ == 0) == c.equal(e), "changed-iff-symbol-occurs");
+        expression_t idc = e.clone_deeper(from, from);
+        vf_assert(idc.equal(e) && idc.str() == text, "replacing-a-symbol-by-itself-is-the-identity");
+    }
+    vf_reach("end");
+}
